@@ -310,4 +310,17 @@ def exampleInput : Input :=
     perms := [[0, 1, 2, 3], [1, 0, 3, 2], [2, 3, 0, 1], [3, 2, 1, 0]],
     uni := 101, P := M3.one, p := Q3.zero, symprec := 1 / 100, msp := 1 / 100, epsilon := 1 / 100 }
 
+/-- A worked type-IV input (non-vacuity examples): UNI 102 = `P 2 2 1a'` (reference group = XSG `P222`, Hall number 108, anti-
+translation `a/2`), eight atoms: one general orbit of the unprimed subgroup and its image under the anti-translation, three
+coordinates 1e-3 / 5e-4 off, one moment 1e-3 off; axial non-collinear moments; identity identification. -/
+def exampleInput4 : Input :=
+  { lat := ⟨4, 0, 0, 0, 3, 0, 0, 0, 5⟩,
+    pos := [⟨1 / 20, 1 / 5, 3 / 10⟩, ⟨-1 / 20, -1 / 5, 301 / 1000⟩, ⟨1 / 20, -1 / 5, -3 / 10⟩, ⟨-1 / 20, 1 / 5, -3 / 10⟩, ⟨11 / 20, 1 / 5, 3 / 10⟩, ⟨9 / 20, -201 / 1000, 3 / 10⟩, ⟨1101 / 2000, -1 / 5, -3 / 10⟩, ⟨9 / 20, 1 / 5, -3 / 10⟩],
+    num := [1, 1, 1, 1, 1, 1, 1, 1],
+    mom := [⟨1 / 4, 1 / 2, 3 / 4⟩, ⟨-1 / 4, -1 / 2, 3 / 4⟩, ⟨1 / 4, -1 / 2, -3 / 4⟩, ⟨-1 / 4, 1 / 2, -3 / 4⟩, ⟨-1 / 4, -1 / 2, -3 / 4⟩, ⟨1 / 4, 1 / 2, -3 / 4⟩, ⟨-1 / 4, 1 / 2, 3 / 4⟩, ⟨1 / 4, -1 / 2, 751 / 1000⟩],
+    collinear := false, axial := true,
+    mops := [⟨⟨1, 0, 0, 0, 1, 0, 0, 0, 1⟩, ⟨0, 0, 0⟩, false⟩, ⟨⟨-1, 0, 0, 0, -1, 0, 0, 0, 1⟩, ⟨0, 0, 0⟩, false⟩, ⟨⟨1, 0, 0, 0, -1, 0, 0, 0, -1⟩, ⟨0, 0, 0⟩, false⟩, ⟨⟨-1, 0, 0, 0, 1, 0, 0, 0, -1⟩, ⟨0, 0, 0⟩, false⟩, ⟨⟨1, 0, 0, 0, 1, 0, 0, 0, 1⟩, ⟨1 / 2, 0, 0⟩, true⟩, ⟨⟨-1, 0, 0, 0, -1, 0, 0, 0, 1⟩, ⟨1 / 2, 0, 0⟩, true⟩, ⟨⟨1, 0, 0, 0, -1, 0, 0, 0, -1⟩, ⟨1 / 2, 0, 0⟩, true⟩, ⟨⟨-1, 0, 0, 0, 1, 0, 0, 0, -1⟩, ⟨1 / 2, 0, 0⟩, true⟩],
+    perms := [[0, 1, 2, 3, 4, 5, 6, 7], [1, 0, 3, 2, 5, 4, 7, 6], [2, 3, 0, 1, 6, 7, 4, 5], [3, 2, 1, 0, 7, 6, 5, 4], [4, 5, 6, 7, 0, 1, 2, 3], [5, 4, 7, 6, 1, 0, 3, 2], [6, 7, 4, 5, 2, 3, 0, 1], [7, 6, 5, 4, 3, 2, 1, 0]],
+    uni := 102, P := M3.one, p := Q3.zero, symprec := 1 / 100, msp := 1 / 100, epsilon := 1 / 100 }
+
 end Moyo.S6m
